@@ -6,8 +6,10 @@ import (
 	"flag"
 	"fmt"
 	"os"
+	"runtime/debug"
 
 	"verif/internal/c11"
+	"verif/internal/mach"
 	"verif/internal/wire"
 )
 
@@ -17,6 +19,10 @@ func main() {
 	n := flag.Int("n", 1000, "number of cases")
 	outDir := flag.String("out", ".", "output directory")
 	flag.Parse()
+	// The garbage collector can deadlock under -tags faketime (its background workers wait
+	// on timers that only fire when every goroutine is idle).  Runs are chunked by bin/check,
+	// so memory stays bounded without it.
+	debug.SetGCPercent(-1)
 
 	var o *wire.Out
 	switch *stream {
@@ -24,6 +30,8 @@ func main() {
 		o = c11.Run(*seed, *n, 40)
 	case "c11-long":
 		o = c11.Run(*seed, *n, 300)
+	case "mach":
+		o = mach.RunRandom("mach", *seed, *n, 60, nil)
 	default:
 		fmt.Fprintln(os.Stderr, "unknown stream", *stream)
 		os.Exit(2)
